@@ -7,7 +7,7 @@ import warnings
 
 from rac import C03 as B
 
-KNOWN = {B.K_D5, B.K_EMPTY_ARR, B.K_EMPTY_FRAME}
+KNOWN = set()          # none of the bounded module's input-class keys is a listed finding any more (all fixed): every key counts
 
 
 def ser(idx, vals=None):
